@@ -323,10 +323,10 @@ def history_generic(run, tier):
     (each goal twice, in two different orders) must be answered exactly as a fresh solver answers them, and as the meaning demands"""
     import props_mini as pm
     rnd = random.Random(seed() * 41 + 29)
-    n = 120 if tier == "quick" else 1200
+    n = 260 if tier == "quick" else 1500
     progs, impl = [], []
     for i in range(n):
-        p = sample_program(rnd, i); impl.append(p)
+        p = sample_program(rnd, i, finite_share=0.5); impl.append(p)
         progs.append((render(p, list(range(len(p["impls"]))), False, False), ["%s: %s" % (show(g["ty"]), TR[g["tr"]]) for g in p["goals"][:4]] + OPEN_GOALS,
                       "cyclic" if cyclic(p["impls"]) else "acyclic", i))
     recs = implmc_records(run, impl, "C10impl")
